@@ -17,6 +17,7 @@ import Cmr.Text
 import Cmr.Sums
 import Cmr.Tree
 import Cmr.Rel
+import Cmr.Render
 namespace Cmr
 
 inductive Verdict where
@@ -968,6 +969,9 @@ def judgePrint : P Verdict := do
   | .inputError why => return .fail s!"{tag}:text" s!"written text is not in the documented format ({why})"
   | .ok m' n' M' =>
     if !(m' == m && n' == n && M' == M) then return .fail s!"{tag}:text" s!"written text denotes {m'}x{n'} {matToString M'}"
+    -- the writers' exact byte format (Cmr/Render.lean; round trip through the format model: Props/C20Roundtrip.lean)
+    let expectedBytes := if fmt == "dense" then renderDense m n M else renderSparse m n M
+    if bytes != expectedBytes then return .fail s!"{tag}:bytes" s!"written bytes differ from the format model's rendering"
     -- read back by the library
     let t ← peek
     if (t.getD "").startsWith "err:" then return .fail s!"{tag}:readback" s!"library cannot read its own output: {t.getD ""}"
@@ -990,6 +994,7 @@ def judgePrintsub : P Verdict := do
   | none => return .fail "printsub:text" "written text is not in the documented submatrix format"
   | some st =>
     if !(st.numRows == m && st.numCols == n && st.rows == rs && st.cols == cs) then return .fail "printsub:text" s!"written text denotes {repr st}"
+    if bytes != renderSubmat st then return .fail "printsub:bytes" "written bytes differ from the format model's rendering"
     let t ← peek
     if (t.getD "").startsWith "err:" then return .fail "printsub:readback" s!"library cannot read its own output: {t.getD ""}"
     let m2 ← nat; let n2 ← nat
